@@ -167,14 +167,16 @@ def r3(ctx):
 
 def r4(ctx):
     g = ctx.repo.func("client.HttpBeaconClient.get_task")
+    from csverif.q import inline as _inl
     tr = [c for c in fn_calls(g.node) if isinstance(c.func, ast.Attribute) and c.func.attr == "transform"]
     ok = len(tr) == 1 and dotted(tr[0].func.value) == "self.c2http.transform_get"
     md = False
     if ok:
+        tr = [_inl(g.node, tr[0])]
         a = tr[0].args[0] if tr[0].args else None
         if isinstance(a, ast.Call) and dotted(a.func) in ("C2Data", "ClientC2Data"):
             m = kwarg(a, "metadata")
-            md = isinstance(m, ast.Call) and ctx.rs.resolve_call(g, m).fq == "c2.encrypt_metadata" and dotted(m.args[0]) == "self.metadata" and dotted(kwarg(m, "public_key") or (m.args[1] if len(m.args) > 1 else None)) == "self.c2http.pub"
+            md = isinstance(m, ast.Call) and dotted(m.func) == "encrypt_metadata" and dotted(m.args[0]) == "self.metadata" and dotted(kwarg(m, "public_key") or (m.args[1] if len(m.args) > 1 else None)) == "self.c2http.pub"
         rq = kwarg(tr[0], "request")
         md = md and isinstance(rq, ast.Call) and dotted(rq.func) == "self._initial_get_request"
     ctx.ob("R4", "AGREE", g, "GET built with transform_get", ok and md, f"check-in uses self.c2http.transform_get={ok}; carries encrypt_metadata(self.metadata, server public key) on the initial GET request={md}")
@@ -185,13 +187,14 @@ def r4(ctx):
     ok = len(tr) == 1 and dotted(tr[0].func.value) == "self.c2http.transform_submit"
     body = False
     if ok:
+        tr = [_inl(s.node, tr[0])]
         a = tr[0].args[0] if tr[0].args else None
         if isinstance(a, ast.Call) and dotted(a.func) in ("C2Data", "ClientC2Data"):
             idv, outv = kwarg(a, "id"), kwarg(a, "output")
             id_ok = idv is not None and src(idv) == "str(self.beacon_id).encode()"
-            oo = origin(s.node, outv.func.value) if isinstance(outv, ast.Call) and isinstance(outv.func, ast.Attribute) and outv.func.attr == "dumps" else None
-            enc_ok = isinstance(oo, ast.Call) and ctx.rs.resolve_call(s, oo).fq == "c2.encrypt_packet" and any(k.arg is None and "self.c2http.beacon_keys._asdict()" in src(k.value) for k in oo.keywords)
-            pk = origin(s.node, oo.args[0].func.value) if enc_ok and isinstance(oo.args[0], ast.Call) and isinstance(oo.args[0].func, ast.Attribute) and oo.args[0].func.attr == "dumps" else None
+            oo = outv.func.value if isinstance(outv, ast.Call) and isinstance(outv.func, ast.Attribute) and outv.func.attr == "dumps" else None
+            enc_ok = isinstance(oo, ast.Call) and dotted(oo.func) == "encrypt_packet" and any(k.arg is None and "self.c2http.beacon_keys._asdict()" in src(k.value) for k in oo.keywords)
+            pk = oo.args[0].func.value if enc_ok and isinstance(oo.args[0], ast.Call) and isinstance(oo.args[0].func, ast.Attribute) and oo.args[0].func.attr == "dumps" else None
             pk_ok = isinstance(pk, ast.Call) and dotted(pk.func) == "CallbackPacket"
             rq = kwarg(tr[0], "request")
             body = id_ok and enc_ok and pk_ok and isinstance(rq, ast.Call) and dotted(rq.func) == "self._initial_post_request"
